@@ -120,9 +120,17 @@ class Program(object):
                     statement.determine_pcr_relative_sizes(self.statements, index)
 
         address = 0
+        code_seen = False
         for index, statement in enumerate(self.statements):
+            if statement.instruction.is_origin and code_seen and not statement.code_pkg.address.is_none() \
+                    and statement.code_pkg.address.int != address:
+                raise TranslationError(
+                    "ORG after code would leave a gap: the program is assembled as one block from one origin",
+                    statement
+                )
             address = statement.set_address(address)
             address += statement.code_pkg.size
+            code_seen = code_seen or statement.code_pkg.size > 0
 
         for index, statement in enumerate(self.statements):
             statement.fix_addresses(self.statements, index)
